@@ -337,7 +337,12 @@ def _build_iso(desc):
             l = f_fwd(model, prm, x) * nm_nat
             if not (np.all(np.diff(p) > 0) and np.all(np.diff(l) > 0)):
                 raise Inconclusive()  # grid so dense that neighbouring loadings coincide in double precision
-            iso = pygaps.PointIsotherm(pressure=p, loading=l, branch="ads", **iso_kwargs(desc, T))
+            # table order of the rows: as measured upwards, or (one case in three) listed from high to low pressure, or
+            # with the lowest points appended at the end - the adsorption branch either way
+            how = int(desc["K300"] * 1e13) % 3 if len(p) >= 4 else 0
+            idx = {0: np.arange(len(p)), 1: np.arange(len(p))[::-1],
+                   2: np.concatenate([np.arange(3, len(p)), np.arange(3)])}[how]
+            iso = pygaps.PointIsotherm(pressure=p[idx], loading=l[idx], branch="ads", **iso_kwargs(desc, T))
             rec["p"], rec["l"] = p, l
             rec["l_lo"], rec["l_hi"] = float(l[0]), float(l[-1])
         isos.append(iso)
